@@ -23,8 +23,8 @@ from hashlib import sha1
 
 from . import c04_lib as L
 
-SOFT_S = float(os.environ.get("C04_SOFT_S", "2.0"))
-RETRY_S = float(os.environ.get("C04_RETRY_S", "10.0"))
+SOFT_S = float(os.environ.get("C04_SOFT_S", "2.0"))      # CPU seconds (user + system) one call may consume
+WALL_S = float(os.environ.get("C04_WALL_S", "20.0"))     # wall-clock seconds; retried once with 3x before a timeout is reported
 
 
 class _Timeout(BaseException):
@@ -43,13 +43,17 @@ def _on_alarm(sig, frame):
 
 
 class budget:
-    def __init__(self, seconds):
-        self.s = seconds
+    """CPU budget (ITIMER_PROF: immune to a loaded machine) and a generous wall-clock budget (blocking hangs)."""
+
+    def __init__(self, cpu_s, wall_s):
+        self.cpu, self.wall = cpu_s, wall_s
 
     def __enter__(self):
-        signal.setitimer(signal.ITIMER_REAL, self.s)
+        signal.setitimer(signal.ITIMER_PROF, self.cpu)
+        signal.setitimer(signal.ITIMER_REAL, self.wall)
 
     def __exit__(self, *a):
+        signal.setitimer(signal.ITIMER_PROF, 0)
         signal.setitimer(signal.ITIMER_REAL, 0)
         return False
 
@@ -210,25 +214,31 @@ def classify(exc):
 
 
 def timed(fn, soft=None, retry=True):
-    """run fn() under the soft budget; on timeout retry once with the long budget (rules out a
-    loaded machine).  Returns (outcome, exc name, msg, wall_ms, value)."""
+    """run fn() under the budgets.  A wall-clock timeout is retried once with three times the limit (rules out a
+    starved worker); exhausting the CPU budget or the step budget is final.
+    Returns (outcome, exc name, msg, cpu_ms, value)."""
     soft = soft or SOFT_S
-    for attempt, lim in enumerate((soft, RETRY_S) if retry else (soft,)):
+    for attempt, wall in enumerate((WALL_S, 3 * WALL_S) if retry else (WALL_S,)):
         t0 = time.perf_counter()
+        c0 = time.process_time()
         try:
-            with budget(lim):
+            with budget(soft, wall):
                 v = fn()
-            return "ok", None, None, (time.perf_counter() - t0) * 1000, v
+            return "ok", None, None, (time.process_time() - c0) * 1000, v
         except BaseException as e:      # noqa: BLE001
+            signal.setitimer(signal.ITIMER_PROF, 0)
             signal.setitimer(signal.ITIMER_REAL, 0)
             oc = classify(e)
-            wall = (time.perf_counter() - t0) * 1000
-            if oc == "timeout" and retry and attempt == 0 and not isinstance(e, _Runaway):
-                continue
+            cpu = (time.process_time() - c0) * 1000
+            wall_used = time.perf_counter() - t0
+            if oc == "timeout" and isinstance(e, _Timeout) and cpu < soft * 900 and retry and attempt == 0:
+                continue                 # wall-clock limit hit without the CPU being used: starved, try again
             name, msg = type(e).__name__, str(e)[:160]
+            if oc == "timeout" and not msg:
+                msg = f"cpu {cpu:.0f} ms, wall {wall_used:.1f} s"
             e.__traceback__ = None
             del e
-            return oc, name, msg, wall, None
+            return oc, name, msg, cpu, None
     raise AssertionError
 
 
@@ -529,27 +539,40 @@ def _pack_result(t):
 
 
 # --------------------------------------------------------------------------- bombs
+def _zeros_deflated(total, prefix=b""):
+    """zlib stream of prefix + `total` zero bytes, built without materialising the payload"""
+    c = zlib.compressobj(9)
+    out = [c.compress(prefix)]
+    chunk = b"\0" * (1 << 20)
+    for _ in range(total >> 20):
+        out.append(c.compress(chunk))
+    out.append(c.flush())
+    return b"".join(out)
+
+
 def bomb_case(env, which):
-    """decompression bombs: crafted streams, measured peak RSS growth (KiB)."""
+    """decompression bombs: crafted streams, measured growth of the peak resident set (KiB)."""
     import struct
-    big = 48 * 1024 * 1024
-    comp = zlib.compress(b"\0" * big, 9)          # ~48 KiB
-    r0 = resource.getrusage(resource.RUSAGE_SELF).ru_maxrss
+    big = 64 * 1024 * 1024
+    gc.collect()
     if which == "pack-entry-overlong":
-        # declared size 10, stream inflates to 48 MiB
-        body = b"PACK" + struct.pack(">LL", 2, 1) + L.obj_hdr(L.OBJ_BLOB, 10) + comp
+        # declared size 10, stream inflates to 64 MiB
+        body = b"PACK" + struct.pack(">LL", 2, 1) + L.obj_hdr(L.OBJ_BLOB, 10) + _zeros_deflated(big)
         data = body + sha1(body).digest()
+        r0 = resource.getrusage(resource.RUSAGE_SELF).ru_maxrss
         evs = [run_ingest(env, p, data) for p in ("disk.add_pack", "mem.add_pack", "disk.add_thin_pack", "stream")]
+        n_in = len(data)
     elif which == "loose-overlong":
         from dulwich.object_store import DiskObjectStore
         d = env.fresh("disk")
-        content = b"\0" * big
-        h = L.oid(L.OBJ_BLOB, content).hex()
+        h = "ab" * 20
         os.makedirs(os.path.join(d, h[:2]), exist_ok=True)
-        hdr = b"blob %d\0" % big
-        c = zlib.compressobj(9)
+        comp = _zeros_deflated(big, b"blob %d\0" % big)
         with open(os.path.join(d, h[:2], h[2:]), "wb") as f:
-            f.write(c.compress(hdr + content) + c.flush())
+            f.write(comp)
+        n_in = len(comp)
+        del comp
+        r0 = resource.getrusage(resource.RUSAGE_SELF).ru_maxrss
 
         def rd():
             st = DiskObjectStore(d, loose_object_size_limit=1024 * 1024)
@@ -558,12 +581,12 @@ def bomb_case(env, which):
             finally:
                 st.close()
         t = timed(rd)
-        evs = [{"path": "loose(limit=1MiB)", **{k: v for k, v in _pack_result(t).items() if k != "value"}, "value": t[4]}]
+        evs = [{"path": "loose(limit=1MiB)", "outcome": t[0], "exc": t[1], "msg": t[2], "wall_ms": round(t[3], 2), "value": t[4]}]
         shutil.rmtree(d, ignore_errors=True)
     else:
         raise ValueError(which)
     r1 = resource.getrusage(resource.RUSAGE_SELF).ru_maxrss
-    return {"which": which, "events": evs, "rss_growth_kb": r1 - r0, "input_kb": len(comp) // 1024}
+    return {"which": which, "events": evs, "rss_growth_kb": r1 - r0, "input_kb": n_in // 1024, "inflates_to_kb": big // 1024}
 
 
 # --------------------------------------------------------------------------- (c) one ingestion under os-level interposition
@@ -746,6 +769,7 @@ def main(argv):
     lim = int(os.environ.get("C04_AS_LIMIT_MB", "3072")) * 1024 * 1024
     resource.setrlimit(resource.RLIMIT_AS, (lim, lim))
     signal.signal(signal.SIGALRM, _on_alarm)
+    signal.signal(signal.SIGPROF, _on_alarm)
     os.makedirs(scratch, exist_ok=True)
     env = Env(scratch)
     with open(cases_path) as f:
